@@ -30,7 +30,8 @@ theorem literals_ok :
     TIME_LITS_hms = [60, 60, 60, 60] ∧ TIME_LITS_MAX = [23, 3600, 59, 60, 59, 999999999] ∧
     TIME_LITS_with_hour = [24, 3600, 3600] ∧ TIME_LITS_with_minute = [60, 3600, 3600, 60, 60] ∧
     TIME_LITS_with_second = [60, 60, 60] ∧ TIME_LITS_with_nanosecond = [2000000000] ∧
-    TIME_LITS_add_std_duration = [2, 24, 60, 60] ∧ TIME_LITS_sub_std_duration = [2, 24, 60, 60] ∧
+    TIME_LITS_add_std_duration = [86400, 86400, 86400] ∧
+    TIME_LITS_sub_std_duration = [86400, 86400, 86400] ∧
     TIME_LITS_hour12 = [12, 0, 12, 12] ∧ TIME_LITS_num_seconds_from_midnight_default = [3600, 60] ∧
     Time.MAX = ⟨86399, 999999999⟩ := by decide
 
@@ -190,25 +191,31 @@ example : Time.overflowing_sub_signed ⟨10859, 1700000000⟩ ⟨0, 900000000⟩
 
 /-! ### `std::time::Duration` operands (`impl Add/Sub<Duration> for NaiveTime`) -/
 
-/-- without a leap-second operand the operators are exact addition modulo one day, for every
-`u64` number of seconds -/
-theorem std_duration_nonleap (t : Time) (secs nanos : Int) (ht : TValid t)
-    (hnl : t.frac < 1000000000) (hn : 0 ≤ nanos ∧ nanos < 1000000000) :
+/-- for EVERY valid time (leap-second representations included), every `u64` number of seconds and
+every nanosecond part below 10⁹, the operators never panic and return the time component of the
+extended-line sum with the exact, unreduced amount — the same time `overflowing_add_signed` /
+`overflowing_sub_signed` give for that amount as a `TimeDelta` (`add_spec`, `sub_is_add_neg`) -/
+theorem std_duration_spec (t : Time) (secs nanos : Int) (ht : TValid t) (hs : 0 ≤ secs)
+    (hn : 0 ≤ nanos ∧ nanos < 1000000000) :
     Time.add_std t secs nanos = .ok (addLeap t (secs * 1000000000 + nanos)).1 ∧
     Time.sub_std t secs nanos = .ok (addLeap t (-(secs * 1000000000 + nanos))).1 :=
-  std_nonleap' t secs nanos ht hnl hn
+  time_std_spec' t secs nanos ht hs hn
 
-/-- FINDING (reproduced on the crate by the harness, counter `std:leap-operand-DIFFERS…`): the
-operators reduce the seconds modulo *two days* before the leap-second rules are applied, so a
-leap-second operand plus exactly two days stays inside its leap second, whereas the documented rules
-(and `overflowing_add_signed` with the same amount as a `TimeDelta`) leave it.  03:00:60.5 + 172800 s:
-`+ Duration` gives 03:00:60.5, `+ TimeDelta` gives 03:00:59.5 (two days later). -/
-theorem std_duration_leap_counterexample :
-    Time.add_std ⟨10859, 1500000000⟩ 172800 0 = .ok ⟨10859, 1500000000⟩ ∧
+/-- the PINNED code (before the repair `ecbcee6`, model `add_std_pinned`) reduced the seconds modulo
+*two days* before the leap-second rules were applied, so a leap-second operand plus exactly two
+days stayed inside its leap second, whereas the documented rules leave it.  03:00:60.5 + 172800 s:
+pinned `+ Duration` gave 03:00:60.5; `+ TimeDelta`, the specification and the repaired operator give
+03:00:59.5 (two days later). -/
+theorem std_duration_pinned_leap_counterexample :
+    Time.add_std_pinned ⟨10859, 1500000000⟩ 172800 0 = .ok ⟨10859, 1500000000⟩ ∧
     Time.add ⟨10859, 1500000000⟩ ⟨172800, 0⟩ = .ok ⟨10859, 500000000⟩ ∧
-    (addLeap ⟨10859, 1500000000⟩ (172800 * 1000000000)).1 = ⟨10859, 500000000⟩ := by decide
+    (addLeap ⟨10859, 1500000000⟩ (172800 * 1000000000)).1 = ⟨10859, 500000000⟩ ∧
+    Time.add_std ⟨10859, 1500000000⟩ 172800 0 = .ok ⟨10859, 500000000⟩ := by decide
 
-example : Time.add_std ⟨86399, 999999999⟩ 18446744073709551615 1 = .ok ⟨25215, 0⟩ := by decide
+example : TValid ⟨10859, 1500000000⟩ ∧
+    Time.add_std ⟨86399, 999999999⟩ 18446744073709551615 1 = .ok ⟨25215, 0⟩ ∧
+    Time.sub_std ⟨10859, 1500000000⟩ 345600 892734244 = .ok ⟨10859, 607265756⟩ ∧
+    Time.add_std ⟨10859, 1500000000⟩ 0 400000000 = .ok ⟨10859, 1900000000⟩ := by decide
 
 /-! ### Difference -/
 
